@@ -131,6 +131,14 @@ def run(rng, per_rule=1200):
         else:
             for _ in range(per_rule):
                 tuples.append((rng.choice(tss), tuple(rng.choice(pl) for pl in poolz)))
+        # boundary: the argument names the reference day itself (same day+month / day of month / weekday), at every pool time
+        from ctparse.types import Time as _T
+        if len(pats) == 1 and getattr(pats[0], "__name__", "") == "_predicate":
+            pn = pats[0].__closure__[0].cell_contents
+            for ts in tss:
+                own = {"isDOY": _T(month=ts.month, day=ts.day), "isDOM": _T(day=ts.day), "isDOW": _T(DOW=ts.weekday())}.get(pn)
+                if own is not None:
+                    tuples.append((ts, (own,)))
         for ts, combo in tuples:
             args = [copy.copy(a) if not hasattr(a, "match") else a for a in combo]
             # give arguments distinct, contiguous spans
